@@ -1,0 +1,108 @@
+//! Verification hooks (compiled only with `--cfg expression_engine_verif`).
+//! Read-only views of private state for the external verification harness;
+//! nothing here changes the behaviour of the engine.
+use crate::function::InnerFunctionManager;
+use crate::operator::{
+    InfixOpAssociativity, InfixOpManager, InfixOpType, PostfixOpManager, PrefixOpManager,
+};
+use crate::token::Token;
+use crate::tokenizer::Tokenizer;
+use std::sync::{Arc, Mutex};
+
+pub use crate::descriptor::DescriptorManager;
+
+/// (kind, text, start, end) of every token up to EOF or the first tokenizer error;
+/// the flag is true when EOF was reached.
+pub fn tokenize(input: &str) -> (Vec<(&'static str, String, usize, usize)>, bool) {
+    crate::init::init();
+    let mut tokenizer = Tokenizer::new(input);
+    let mut out = Vec::new();
+    loop {
+        let token = match tokenizer.next() {
+            Ok(token) => token,
+            Err(_) => return (out, false),
+        };
+        let item = match token {
+            Token::EOF => return (out, true),
+            Token::Operator(s, sp) => ("op", s.to_string(), sp.0, sp.1),
+            Token::Delim(ty, sp) => ("delim", ty.string(), sp.0, sp.1),
+            Token::Number(d, sp) => (
+                "num",
+                format!("{}/{}/{}", d.is_sign_negative(), d.mantissa().abs(), d.scale()),
+                sp.0,
+                sp.1,
+            ),
+            Token::Comma(s, sp) => ("comma", s.to_string(), sp.0, sp.1),
+            Token::Bool(b, sp) => ("bool", b.to_string(), sp.0, sp.1),
+            Token::String(s, sp) => ("str", s.to_string(), sp.0, sp.1),
+            Token::Reference(s, sp) => ("ref", s.to_string(), sp.0, sp.1),
+            Token::Function(s, sp) => ("func", s.to_string(), sp.0, sp.1),
+            Token::Semicolon(s, sp) => ("semi", s.to_string(), sp.0, sp.1),
+        };
+        out.push(item);
+    }
+}
+
+pub struct Registries {
+    /// (name, precedence, is_setter, is_right_associative)
+    pub infix: Vec<(String, i32, bool, bool)>,
+    pub prefix: Vec<String>,
+    pub postfix: Vec<String>,
+    pub functions: Vec<String>,
+}
+
+/// Sorted snapshot of the names (and infix configuration) currently registered.
+pub fn dump_registries() -> Registries {
+    crate::init::init();
+    let manager = InfixOpManager::new();
+    let mut infix = Vec::new();
+    for (name, _) in manager.operators() {
+        if let Ok(config) = manager.get(&name) {
+            infix.push((
+                name,
+                config.0,
+                matches!(config.1, InfixOpType::SETTER),
+                config.2 == InfixOpAssociativity::RIGHT,
+            ));
+        }
+    }
+    infix.sort();
+    let mut prefix = PrefixOpManager::new().verif_names();
+    prefix.sort();
+    let mut postfix = PostfixOpManager::new().verif_names();
+    postfix.sort();
+    let mut functions: Vec<String> = InnerFunctionManager::new()
+        .store
+        .lock()
+        .unwrap()
+        .keys()
+        .cloned()
+        .collect();
+    functions.sort();
+    Registries {
+        infix,
+        prefix,
+        postfix,
+        functions,
+    }
+}
+
+type Probe = Arc<dyn Fn(u8) + Send + Sync + 'static>;
+
+fn probe_slot() -> &'static Mutex<Option<Probe>> {
+    static SLOT: Mutex<Option<Probe>> = Mutex::new(None);
+    &SLOT
+}
+
+/// Installs a callback invoked by the initialising thread before stage 0 and after
+/// each of the four built-in registration stages (stage numbers 0..=4).
+pub fn set_init_probe(probe: Option<Probe>) {
+    *probe_slot().lock().unwrap() = probe;
+}
+
+pub(crate) fn init_probe(stage: u8) {
+    let probe = probe_slot().lock().unwrap().clone();
+    if let Some(probe) = probe {
+        probe(stage);
+    }
+}
